@@ -13,8 +13,8 @@ PROPERTY = "C23"
 LEVEL = "model_checking"
 RULE = (
     "inputs as C22 (diploid individuals, all 2^s phase assignments for s<=5) x match_segregating_sites {F,T} x rescaling_intervals {1,2}, "
-    "singletons_phased=False. the harness wraps the module-level name variational.reallocate_unphased (the call made by the real rescale "
-    "step) and records the per-edge count array it is given and leaves behind. oracle (independent tally): for every unphased singleton "
+    "singletons_phased=False. the harness wraps the module-level name variational.mutational_timescale (called by the real rescale step) and records the per-edge "
+    "(count, span) array the rescaling really tallies with. oracle (independent tally): for every unphased singleton "
     "the two candidate edges are the leaf edges of its individual's two nodes at its position; expected count = direct tally of all "
     "other mutations + q on the edge the singleton is finally placed on + (1-q) on the other, q = fitted phase probability >= 1/2; total "
     "added per singleton == 1; edges outside blocks unchanged (1e-9). one evaluation = one dating call; non-trivial = some singleton is "
@@ -42,30 +42,29 @@ def run(case):
     viol, tags, keys = [], {}, []
     evals = 0
     cid = f"{case['arg']['id']}|{case['mut']}"
-    real = V.reallocate_unphased
     for flips in itertools.product((0, 1), repeat=case["s"]):
         ts = C22.rephase(ts0, flips)
         for seg, ri in itertools.product((False, True), (1, 2)):
             rec = {}
+            real_mt = V.mutational_timescale
 
-            def spy(lik, phase, mblocks, bedges, rec=rec):
-                rec["before"] = np.array(lik, copy=True)
-                real(lik, phase, mblocks, bedges)
-                rec["after"] = np.array(lik, copy=True)
+            def spy(nodes_time, likelihoods, *a, rec=rec, **k):
+                rec.setdefault("used", np.array(likelihoods, copy=True))  # what the rescaling step really tallies with
+                return real_mt(nodes_time, likelihoods, *a, **k)
 
-            V.reallocate_unphased = spy
+            V.mutational_timescale = spy
             try:
                 evals += 1
                 ok, res = call(tsdate.variational_gamma, ts, mutation_rate=1.0, rescaling_intervals=ri, rescaling_iterations=2, match_segregating_sites=seg, singletons_phased=False, return_fit=True)
             finally:
-                V.reallocate_unphased = real
+                V.mutational_timescale = real_mt
             sub = {"flips": list(flips), "match_segregating_sites": seg, "rescaling_intervals": ri}
             if not ok:
                 k = f"no_return:{classify_exc(res)}"
                 tags[k] = tags.get(k, 0) + 1
                 continue
-            if "after" not in rec:
-                viol.append({"kind": "rescale_did_not_reallocate", "msg": "", "facts": {}, "sub": sub})
+            if "used" not in rec:
+                viol.append({"kind": "rescaling_step_not_observed", "msg": "", "facts": {}, "sub": sub})
                 continue
             out, fit = res
             # independent tally
@@ -101,7 +100,7 @@ def run(case):
                     viol.append({"kind": "phase_probability_out_of_range", "msg": f"mutation {m.id}: {q!r}", "facts": {}, "sub": sub})
                 if fin == max(ea, eb):
                     second = True
-            got = rec["after"][:, 0]
+            got = rec["used"][:, 0]
             if not np.allclose(got, exp, atol=1e-9, rtol=0):
                 bad = [int(e) for e in np.flatnonzero(np.abs(got - exp) > 1e-9)]
                 viol.append(
@@ -109,8 +108,8 @@ def run(case):
                      "facts": {"all_bad_edges_in_blocks": all(e in unph_edges for e in bad), "some_singleton_on_second_block_edge": second}, "sub": sub}
                 )
             other = [e for e in range(ts.num_edges) if e not in unph_edges]
-            if not np.array_equal(rec["after"][other], rec["before"][other]) or not np.array_equal(rec["after"][:, 1], rec["before"][:, 1]):
-                viol.append({"kind": "other_branches_changed", "msg": "", "facts": {}, "sub": sub})
+            if not np.allclose(rec["used"][other, 0], ref[other, 0], atol=1e-12, rtol=0) or not np.allclose(rec["used"][:, 1], ref[:, 1] * 1.0, atol=1e-12, rtol=1e-12):
+                viol.append({"kind": "other_branches_changed", "msg": f"counts {rec['used'][other, 0].tolist()} vs {ref[other, 0].tolist()}", "facts": {}, "sub": sub})
             if second:
                 keys.append(f"{cid}|{sub}")
     return {"evals": evals, "viol": viol, "tags": tags, "keys": keys}
